@@ -57,6 +57,7 @@ func vDisarm()               {}
 func vArmFault()             {}
 func vDisarmFault() bool     { return false }
 func vPowerLossMode(on bool) {}
+func vFewCuts(on bool)       {}
 func vPowerFail(dir string)  {}
 func vImageSave(dir string)  {}
 
